@@ -1,4 +1,5 @@
 import Proofs.Refine
+import Proofs.SearchObjects
 
 /-!
 # C03 — `search(max_evals)` budget is honoured and accumulates over repeated calls
@@ -15,6 +16,12 @@ expired or not), every `W ≥ 1` and every schedule; a schedule outside the cont
 `asyncio.wait` (`g = 0` or `g > W`) or shorter than the run makes the model answer
 `badEnv` / `envExhausted` instead of `budget` / `cap`, and `C03_returns` shows that a valid,
 long-enough schedule whose clock does not expire always ends in `budget` / `cap`.
+
+Last section (model: `Model/SearchObjects.lean`, lemmas: `Proofs/SearchObjects.lean`): histories
+with **several search objects** constructed on the same evaluator at any time (all up-front, or
+each when the previous one is done; same or different log directories, absolute or relative) and
+**changes of the working directory** between or during the calls; the results files, the dump state
+of the evaluator and `Search.__init__` are inside the model.
 -/
 
 namespace DH.Search
@@ -234,3 +241,205 @@ example : (runCalls {} (init 1)
       (fun o => (o.stop, o.evals)) = [(.timeout, 1), (.budget, 5)] := by decide +kernel
 
 end DH.Search
+
+namespace DH.SearchObjects
+open DH.Search
+
+/-! ### several search objects on one evaluator, results files, working directory
+
+`runOps {} (initW W fs0 cwd0) ops` is an arbitrary history of events on one evaluator with `W`
+workers in a process started in directory `cwd0` with the results files `fs0` already there:
+`new ld` (a search object is constructed on the evaluator with `log_dir = ld`, absolute or
+relative — `rel []` is the default `"."`; the objects are numbered in the order of construction),
+`chdir p` (the process changes its working directory between two calls), `call o c env cwdAfter`
+(a `search()` call on search object number `o`; a run-function may have left the process in another
+directory).  History variables of an object: `own` = the evaluations performed by the calls on it
+(`C03_own_counts_object_calls`), `valid` = it is not over: a directory holds the results of one
+search at a time — an object is over as soon as another one is constructed or called in its
+directory (`Obj.overBy`); objects with different directories may use the evaluator in any order,
+also in turns. -/
+
+/-- **C03 (the table of a search object holds the evaluations of all ITS calls).**  Whatever
+happened before on the evaluator — any number of other search objects, constructed earlier, later
+or all up-front, used one after the other or in turns, in the same log directory (the results file
+found there is renamed away by the constructor) or in others, given as absolute or relative paths,
+any changes of the working directory between or during the calls, any results files that existed
+beforehand, any mix of plain / strict / timeout calls on any of the objects — a call that returns,
+made on a search object that is not over, hands back a table which is well formed (its first line is the header line: the
+column names are the declared ones) and has exactly one row per evaluation performed by the calls
+on this object so far, this call included (`None` when there is none yet). -/
+theorem C03_table_per_search_object (W : Nat) (hW : 1 ≤ W) (fs0 : FS) (cwd0 : Path) (ops : List Op)
+    (hh : AllSettledW (runOps {} (initW W fs0 cwd0) ops).2)
+    (o : Nat) (c : Call) (env : List Step) (cwdAfter : Option Path) :
+    let w := (runOps {} (initW W fs0 cwd0) ops).1
+    ∀ ob, w.objs o = some ob → ob.valid = true →
+    ∀ ow, (stepW {} w (.call o c env cwdAfter)).2 = some ow → returned ow.out = true →
+      ow.table = (if ob.own + ow.out.evals = 0 then none
+                  else some { rows := ob.own + ow.out.evals, wellFormed := true }) ∧
+      (stepW {} w (.call o c env cwdAfter)).1.objs o =
+        some { ob with own := ob.own + ow.out.evals } := by
+  intro w ob hob hv ow how hret
+  have hi : Inv W w := runOps_inv W hW ops _ (initW_inv W fs0 cwd0) hh
+  have hs : ∀ ow', (stepW {} w (.call o c env cwdAfter)).2 = some ow' → Settled ow'.out := by
+    intro ow' h'
+    rw [how] at h'
+    simp only [Option.some.injEq] at h'
+    subst h'
+    exact returned_settled hret
+  obtain ⟨_, h2⟩ := call_inv W hW w hi o c env cwdAfter hs
+  obtain ⟨a, b⟩ := h2 ob hob ow how
+  exact ⟨b hv hret, a⟩
+
+/-- **C03 (the history variable `own` is what it is called).**  Whatever the events, the `own` of a
+search object grows by exactly the evaluations of the calls made on it, and its directory stays the
+one resolved at its construction. -/
+theorem C03_own_counts_object_calls (cfg : Cfg) (w : World) (o : Nat) (ob : Obj) (ops : List Op)
+    (h : w.objs o = some ob) (hlt : o < w.nobj) :
+    ∃ ob', (runOps cfg w ops).1.objs o = some ob' ∧ ob'.dir = ob.dir ∧
+      ob'.own = ob.own + sumEvalsOn o ops (runOps cfg w ops).2 :=
+  runOps_own cfg o ops w ob h hlt
+
+/-- **C03 (the budget of a call does not depend on which search object makes it).**  After any
+history of constructions, directory changes and calls on the evaluator, a call with
+`max_evals = n ≥ 0` on any of its search objects that ends by its evaluation budget performs `e`
+new evaluations with `n ≤ e < n + W`, exactly `n` when strict. -/
+theorem C03_budget_any_object (W : Nat) (hW : 1 ≤ W) (fs0 : FS) (cwd0 : Path) (ops : List Op)
+    (hh : AllSettledW (runOps {} (initW W fs0 cwd0) ops).2)
+    (o : Nat) (c : Call) (env : List Step) (cwdAfter : Option Path) (hn : 0 ≤ c.maxEvals) :
+    let w := (runOps {} (initW W fs0 cwd0) ops).1
+    ∀ ow, (stepW {} w (.call o c env cwdAfter)).2 = some ow →
+      (ow.out.stop = .budget ∨ ow.out.stop = .cap) →
+      c.maxEvals ≤ (ow.out.evals : Int) ∧ (ow.out.evals : Int) < c.maxEvals + W ∧
+      (c.strict = true → (ow.out.evals : Int) = c.maxEvals) := by
+  intro w ow how hend
+  obtain ⟨hq, hw, _⟩ : Inv W w := runOps_inv W hW ops _ (initW_inv W fs0 cwd0) hh
+  cases hob : w.objs o with
+  | none => simp [stepW, hob] at how
+  | some ob =>
+    simp only [stepW, hob, Option.some.injEq] at how
+    have hout : ow.out = (searchCall {} w.ev c env).2 := by
+      rw [← how, (searchCallD_proj {} {} ob.dir w.ev _ c env).1]
+    rw [hout] at hend ⊢
+    have hbt : badTimeout c = false := by
+      cases hb : badTimeout c with
+      | false => rfl
+      | true =>
+        have : (searchCall {} w.ev c env).2.stop = .badTimeout := by
+          simp only [searchCall_def, hb, if_true, mkOut]
+        rcases hend with h | h <;> rw [this] at h <;> simp at h
+    have b := searchCall_budget w.ev c env (by omega) hq hn hbt
+    exact ⟨b.lower hend, by have := b.upper; rw [hw] at this; exact this,
+      fun hst => b.strict hst hend⟩
+
+/-- **C03 (a call reads the working directory nowhere).**  The log directory was resolved when the
+search object was constructed: what a call returns and what it writes do not depend on the working
+directory of the process at the time of the call (every run checks this against the code with
+relative log directories and `os.chdir` between the calls and inside the run-function). -/
+theorem C03_call_ignores_cwd (cfg : Cfg) (w : World) (q : Path) (o : Nat) (c : Call) (env : List Step)
+    (cwdAfter : Option Path) :
+    (stepW cfg { w with cwd := q } (.call o c env cwdAfter)).2 =
+      (stepW cfg w (.call o c env cwdAfter)).2 ∧
+    (stepW cfg { w with cwd := q } (.call o c env cwdAfter)).1.fs =
+      (stepW cfg w (.call o c env cwdAfter)).1.fs := by
+  cases h : w.objs o <;> simp [stepW, h]
+
+/-! ### non-vacuity: a history (W = 3, started in directory `[0]`) with five search objects -/
+
+/-- objects 0 and 1 are constructed up-front (default `log_dir` = `"."` in `[0]`, and the absolute
+directory `[5]`).  Object 0: plain 2, `chdir`, strict 5 during which a run-function leaves the
+process in `[2]`.  Object 1 (constructed before object 0 ran): `max_evals = 0` (returns `None`), a
+timeout that expires.  Object 2 with the default `log_dir` again (now `[2]`): strict 4 that hits the
+cap mid-batch; then object 1 again (in turns).  Object 3 in the absolute directory of object 0
+(whose file is renamed away: object 0 is over), `chdir`; object 4 with a relative `log_dir`: invalid
+timeout, timeout + budget; then object 3, then object 2 again (strict 2: the cap is hit in the
+first batch). -/
+def ops1 : List Op :=
+  [ .new (.rel []), .new (.abs [5]),
+    .call 0 { maxEvals := 2 } [⟨2, false⟩, ⟨1, false⟩] none,
+    .chdir [1],
+    .call 0 { maxEvals := 5, strict := true } (ones 5) (some [2]),
+    .call 1 { maxEvals := 0 } [] none,
+    .call 1 { maxEvals := -1, timeout := some 1 } [⟨1, false⟩, ⟨3, true⟩] none,
+    .new (.rel []),
+    .call 2 { maxEvals := 4, strict := true } [⟨2, false⟩] none,
+    .call 1 { maxEvals := 1 } (ones 1) none,
+    .new (.abs [0]),
+    .chdir [0, 7],
+    .new (.rel [7]),
+    .call 4 { maxEvals := 1, timeout := some 0 } [] none,
+    .call 4 { maxEvals := 2, timeout := some 4 } (ones 2) none,
+    .call 3 { maxEvals := 1 } (ones 1) none,
+    .call 2 { maxEvals := 2, strict := true } (ones 2) none ]
+
+def view (o : Option OutW) : Option (Stop × Nat × Option Table) :=
+  o.map (fun x => (x.out.stop, x.out.evals, x.table))
+
+theorem outs_ops1 : (runOps {} (initW 3 fsEmpty [0]) ops1).2.map view =
+    [ none, none, some (.budget, 3, some ⟨3, true⟩), none, some (.budget, 5, some ⟨8, true⟩),
+      some (.budget, 0, none), some (.timeout, 4, some ⟨4, true⟩),
+      none, some (.cap, 4, some ⟨4, true⟩), some (.budget, 3, some ⟨7, true⟩),
+      none, none, none, some (.badTimeout, 0, none), some (.budget, 4, some ⟨4, true⟩),
+      some (.budget, 3, some ⟨3, true⟩), some (.cap, 2, some ⟨6, true⟩) ] := by decide +kernel
+
+example : AllSettledW (runOps {} (initW 3 fsEmpty [0]) ops1).2 := by
+  have h := outs_ops1
+  intro o ho ow hw
+  subst hw
+  have hm : view (some ow) ∈ (runOps {} (initW 3 fsEmpty [0]) ops1).2.map view :=
+    List.mem_map_of_mem ho
+  rw [h] at hm
+  simp only [view, Option.map_some, List.mem_cons, List.not_mem_nil, or_false, reduceCtorEq,
+    Option.some.injEq, Prod.mk.injEq, false_or] at hm
+  unfold Settled
+  rcases hm with h | h | h | h | h | h | h | h | h | h <;> simp [h.1]
+
+def w1 : World := (runOps {} (initW 3 fsEmpty [0]) ops1).1
+
+/-- the objects at the end: object 0 is over (object 3 was constructed in its directory), the others
+are not; the files: `[0]` holds the 3 rows of object 3 (the 8 rows of object 0 were renamed away) -/
+example : w1.cwd = [0, 7] ∧ w1.nobj = 5 ∧
+    w1.objs 0 = some ⟨[0], 8, false⟩ ∧ w1.objs 1 = some ⟨[5], 7, true⟩ ∧
+    w1.objs 2 = some ⟨[2], 6, true⟩ ∧ w1.objs 3 = some ⟨[0], 3, true⟩ ∧
+    w1.objs 4 = some ⟨[0, 7, 7], 4, true⟩ ∧
+    w1.fs [0] = some ⟨true, 3⟩ ∧ w1.fs [5] = some ⟨true, 7⟩ ∧ w1.fs [2] = some ⟨true, 6⟩ ∧
+    w1.fs [0, 7] = none ∧ w1.fs [0, 7, 7] = some ⟨true, 4⟩ ∧ w1.ev.rows = 28 := by
+  decide +kernel
+
+/-! ### regression witnesses: the code with one or both repairs of the dump state switched off -/
+
+/-- the pinned code (one dump state for all the files, not reset by `Search.__init__`): every search
+object after the first one that dumped gets a results file without header line: one row short, data
+values as column names -/
+example : (runOps { initResets := false, perFile := false } (initW 3 fsEmpty [0]) ops1).2.map view =
+    [ none, none, some (.budget, 3, some ⟨3, true⟩), none, some (.budget, 5, some ⟨8, true⟩),
+      some (.budget, 0, none), some (.timeout, 4, some ⟨3, false⟩),
+      none, some (.cap, 4, some ⟨3, false⟩), some (.budget, 3, some ⟨6, false⟩),
+      none, none, none, some (.badTimeout, 0, none), some (.budget, 4, some ⟨3, false⟩),
+      some (.budget, 3, some ⟨2, false⟩), some (.cap, 2, some ⟨5, false⟩) ] := by decide +kernel
+
+/-- the code of /repo before the repair found by this check (`Search.__init__` resets the one dump
+state there is): object 1, constructed up-front, BEFORE object 0 dumped its results, gets the
+header-less file (4 evaluations: 3 rows, wrong column names; later 7 evaluations: 6 rows), and so
+does object 3 (constructed before object 4 ran) -/
+example : (runOps { perFile := false } (initW 3 fsEmpty [0]) ops1).2.map view =
+    [ none, none, some (.budget, 3, some ⟨3, true⟩), none, some (.budget, 5, some ⟨8, true⟩),
+      some (.budget, 0, none), some (.timeout, 4, some ⟨3, false⟩),
+      none, some (.cap, 4, some ⟨4, true⟩), some (.budget, 3, some ⟨6, false⟩),
+      none, none, none, some (.badTimeout, 0, none), some (.budget, 4, some ⟨4, true⟩),
+      some (.budget, 3, some ⟨2, false⟩), some (.cap, 2, some ⟨6, true⟩) ] := by decide +kernel
+
+/-- the dump state per file but not reset by `Search.__init__`: a search object constructed in a
+directory the evaluator dumped to before (same directory, one after the other) gets the header-less
+file -/
+example : (runOps { initResets := false } (initW 1 fsEmpty [0])
+    [ .new (.abs [1]), .call 0 { maxEvals := 2 } (ones 2) none,
+      .new (.abs [1]), .call 1 { maxEvals := 3 } (ones 3) none ]).2.map view =
+    [ none, some (.budget, 2, some ⟨2, true⟩), none, some (.budget, 3, some ⟨2, false⟩) ] := by
+  decide +kernel
+example : (runOps {} (initW 1 fsEmpty [0])
+    [ .new (.abs [1]), .call 0 { maxEvals := 2 } (ones 2) none,
+      .new (.abs [1]), .call 1 { maxEvals := 3 } (ones 3) none ]).2.map view =
+    [ none, some (.budget, 2, some ⟨2, true⟩), none, some (.budget, 3, some ⟨3, true⟩) ] := by
+  decide +kernel
+
+end DH.SearchObjects
